@@ -87,6 +87,17 @@ CLAIMED["C17"] = ("Partial proof of the reseed discipline, for every state and e
  "DESIGN.md §4 C17")
 
 NOT_APPLICABLE = {
+ "C02": "Not reached by the contract technique in this build: the SM4 round function (S-box tables, 32-bit rotations, XOR network) needs the bit-vector mode of the verifier, which exists only as a skeleton; the AES-NI/AVX assembly tiers are outside any Go-level contract. The Go wrappers around the SM4 assembly that cipher modes use are covered under C03. No other technique was substituted.",
+ "C04": "GCM/CCM: table-driven GHASH and the fused SM4-GCM assembly need bit-vector reasoning over carry-less multiplication that the arith-mode VC generator cannot express; CCM's Go glue was planned but not reached in this build.",
+ "C05": "Field and point arithmetic of SM2 P-256 (assembly and fiat-generated limb code): 256-bit nonlinear modular arithmetic is not decidable by the SMT back ends behind a self-written VC generator in the time available. The behaviour of these packages is exactly what C06/C07/C12 assume as trusted ghost-valued contracts (internal/sm2ec/zz_contracts_verif.go, internal/bigmod/zz_contracts_verif.go).",
+ "C08": "Key agreement rests on the same unproved curve arithmetic as C05 plus multi-call protocol state across two parties; no per-function contract within reach expresses agreement of the two derived keys.",
+ "C09": "Pairing-group algebra (Miller loop, final exponentiation, group laws, bilinearity) is nonlinear arithmetic over a 256-bit prime field and its extensions, outside the reach of SMT-discharged VCs. The strict-decoding clause (defect D7: gfP.Unmarshal errors ignored in G1/G2 Unmarshal) is recorded in DESIGN.md section 5 but the decoders are not under contract in this build.",
+ "C10": "Protocol-level completeness/soundness of SM9 sign/wrap/encrypt/key exchange depends on the pairing algebra (C09). The parts within reach are decided under other properties: parser and decrypt safety (C13), the secret scalar sampler (C12), the KDF (C01).",
+ "C11": "ZUC: the 31-bit LFSR, bit reorganisation and S-box network need the bit-vector mode (skeleton only). The seek/checkpoint state machine and the EIA tail handling (known defect D8 of section 5) were planned over an abstract keystream but not reached in this build.",
+ "C14": "Round trip of key containers runs through encoding/asn1 reflection, crypto/x509 and PEM; a whole-structure encode/decode inverse over reflection-driven code is outside the verifier's subset. The scalar range gates and decrypt paths within reach are decided under C13 (pkcs/cfca/enveloped key decrypt, NewPrivateKey/NewPublicKey) and C12 (ecdh NewPrivateKey range refusal).",
+ "C15": "X.509 creation, parsing and chain verification are dominated by crypto/x509-derived code with maps, reflection-based ASN.1 and time; no contract within reach expresses chain validity. Not attempted beyond the parser safety parts of C13.",
+ "C16": "PKCS#7 sign/verify/envelope correctness is a whole-message property over encoding/asn1 and certificate handling. The hand-written BER reader (readObject) is proved panic-free and terminating under C13; ber2der idempotence on DER input was planned but not reached.",
+ "C20": "Concurrency: the technique (sequential weakest-precondition reasoning over go/ssa) has no thread model, no happens-before relation and no schedule exploration. The only history-dependent behaviour decided is the sync.Once caching of C06 (both histories explored sequentially).",
 }
 
 PENDING = "contracts for this property are not written yet in this round (work in progress; see DESIGN.md §7 order of work)"
